@@ -2,7 +2,10 @@
 Theorems: coq/Props/Properties_C13.v over coq/Leaf/NativeWide.v (the native `long`
 and the wide INTEGER_t representation of one abstract integer reach the same byte
 producers; where they part — unsigned fields at and above 2^63, values a long
-cannot hold — is refuted with witnesses).
+cannot hold — is refuted with witnesses), coq/Rt/Layout.v (pointer vs inline member
+representation: for every layout the OER/DER walk of the structure gives the bytes of
+the representation-free codec model) and coq/Rt/Options.v (erasure of the descriptor
+tables, its comparison, the emitter's OER/PER slot decision).
 Tie: the SAME generated module is compiled by the asn1c built from /repo under
 several subsets of the representation options; every build encodes the same
 values in DER, UPER, OER, BASIC-XER and CANONICAL-XER: the bytes must be equal
@@ -11,16 +14,25 @@ algebra), and every build must decode every distinct output back to the value.
  (model layer) lib/modgen.Gen modules, corpus values as model DER;
  (wide layer)  lib/widegen.WGen modules, values from the baseline build's
                asn_random_fill transported as DER;
- (witness layer) the refuted theorems' witnesses replayed on the real code."""
-import sys, os, re
+ (witness layer) the refuted theorems' witnesses replayed on the real code;
+ (family layer) lib/c13_families.py: one directed module family per representation
+               option, directed values, every build vs the others and vs the codec model;
+ (descriptor tie) harness/dumpdescr.c dumps the type descriptor tables of every build of
+               every module; the option-invariant part (lib/c13_descr.py = extracted
+               Rt/Options.v table_sim) must equal the baseline's; the dumped OER/PER slots
+               must be what the emitter model (type_slots / member_slots) says."""
+import sys, os, re, time
 sys.path.insert(0, os.path.join(os.path.dirname(os.path.abspath(__file__)), "..", "lib"))
 from vlib import *
 from modcorpus import *
 from widegen import WGen
 from c13_util import *
+from c13_families import *
+import c13_descr
 
 import threading
 _LOCK = threading.Lock()
+FAMILY_NOTES = []     # directed family values no build can encode (kept in the evidence: they are wasted cases)
 WATCHDOG_S = 8.0        # seconds without an answer line before a driver is killed
 
 WIDE_FEATURES = ["enum", "real", "bits", "strings", "oid", "time", "default", "ext"]     # no SET, no recursion
@@ -134,9 +146,14 @@ def witness_values():
     return out
 
 
+class _Mods(dict):
+    def __missing__(self, key):          # a module that was not built under this option set
+        return {}
+
+
 class Variant:
     def __init__(self, k, opts, mods):
-        self.k, self.opts, self.mods = k, tuple(opts), {m["name"]: m for m in mods}
+        self.k, self.opts, self.mods = k, tuple(opts), _Mods((m["name"], m) for m in mods)
 
     def label(self):
         return "opt%d[%s]" % (self.k, " ".join(self.opts) or "(none)")
@@ -151,6 +168,15 @@ def run_mod_resume(run, m, lines, name, exits=None):
     while rest:
         rc, o, err = run_lines_watchdog(m["exe"], rest, per_line=WATCHDOG_S, env=SAN_ENV)
         if rc == "TIMEOUT" and len(o) < len(rest):
+            # on a machine shared with other jobs an answer may simply be late: ask once more, alone, with a long watchdog,
+            # before calling it a command that never returns
+            rc2, o2, err2 = run_lines_watchdog(m["exe"], [rest[len(o)]], per_line=12 * WATCHDOG_S, env=SAN_ENV)
+            if rc2 != "TIMEOUT" and len(o2) == 1:
+                with _LOCK:
+                    run.count("driver_answer_late(retried alone)")
+                out += o + [o2[0]]
+                rest = rest[len(o) + 1:]
+                continue
             out += o + ["TIMEOUT"]
             with _LOCK:
                 run.count("driver_command_never_returned")
@@ -272,6 +298,8 @@ def check_module(run, rng, tier, variants, mname, values, classify, layer, model
                       "outputs": {variants[vi].label(): o for vi, o in outs.items()}}
             if len(groups) == 1 and not list(groups)[0].startswith("OK "):
                 run.count("%s_not_encodable_in_every_build(%s:%s)" % (layer, s, list(groups)[0].split()[0]))
+                if layer == "family" and len(FAMILY_NOTES) < 60 and (s == "der" or "DECFAIL" not in list(groups)[0]) and not (s == "uper" and "ENCFAIL" in list(groups)[0]):
+                    FAMILY_NOTES.append({"module": mname, "command_line": line, "every_build_answers": list(groups)[0]})
             if len(groups) > 1:
                 fid = classify(j, s, "enc-differs", groups)
                 if fid:
@@ -279,11 +307,9 @@ def check_module(run, rng, tier, variants, mname, values, classify, layer, model
                 else:
                     run.violation("oracle:options-change-bytes(%s)" % s,
                                   dict(replay, what="builds of the same module under different representation options emit different %s bytes for the same value" % s))
-            ref = outs.get(0)
-            if model_bytes is not None and s in ("der", "uper", "oer") and ref is not None:
+            if model_bytes is not None and s in ("der", "uper", "oer") and outs:
                 exp = model_bytes[s][j]
                 expl = ("OK " + exp) if exp != "NONE" else "ENCFAIL"
-                got = ref if not ref.startswith("ENCFAIL") else "ENCFAIL"
                 alt = model_bytes.get(s + "std", [None] * len(values))[j]
                 if alt is not None and alt != exp:
                     # the faithful model and its standard reading differ here (C02's refuted regions: semi-constrained
@@ -291,13 +317,18 @@ def check_module(run, rng, tier, variants, mname, values, classify, layer, model
                     # deviation at a time, before the shared model follows; which state the C is in is C02's
                     # statement.  C13 keeps the comparison across builds (above) and does not compare with the model.
                     run.count("model_layer_uper_in_C02_refuted_region(no model comparison)")
-                elif got != expl:
-                    fid = classify(j, s, "model-differs", groups)
-                    if fid:
-                        run.known_finding(fid, line)
-                    else:
-                        run.violation("correspondence:Rt.%s" % s, dict(replay, model=expl, what="baseline build differs from the extracted codec model"),
-                                      no_input=(len(groups) == 1))
+                else:
+                    # EVERY build against the codec model (the model takes no representation parameter:
+                    # coq/Rt/Layout.v, C13_oer_layout_invariant), not only the baseline
+                    wrong = [vi for g, vis in groups.items() if g != expl for vi in vis]
+                    if wrong:
+                        fid = classify(j, s, "model-differs", groups)
+                        if fid:
+                            run.known_finding(fid, line)
+                        else:
+                            run.violation("correspondence:Rt.%s" % s, dict(replay, model=expl, builds_differing_from_model=[variants[vi].label() for vi in wrong],
+                                                                        what="a build differs from the extracted codec model"),
+                                          no_input=(len(groups) == 1))
             for o in groups:
                 if o.startswith("OK "):
                     items.append((tn, s, o.split()[1]))
@@ -414,6 +445,165 @@ def leaf_tie(run, rng, tier, wvariants, model):
                                                     "command_line": l, "value": str(v), "outputs": {wvariants[vi].label(): o for vi, o in outs.items()}})
 
 
+# ------------------------------------------------------------------ directed families (lib/c13_families.py)
+
+# extra option sets for the family modules (quick tier; the thorough tier builds every subset anyway): each
+# structure-changing option ALONE with every codec present, and all of them together
+FAMILY_SETS = [
+    ("-fcompound-names", "-findirect-choice"),
+    ("-fcompound-names", "-fwide-types", "-findirect-choice", "-fno-constraints", "-fincludes-quoted", "-fno-include-deps"),
+]
+
+
+def text_family_values(run, rng, tier, m):
+    """values of a text-only family module as DER: hand-made DER, XER converted by the baseline build, random fill"""
+    values = list(m.get("der_values", []))
+    xv = m.get("xer_values", [])
+    if xv:
+        lines = ["xcode %s xer %s der" % (tn, xer(x)) for tn, x in xv]
+        out = run_mod_resume(run, m, lines, "C13-family-xer2der")
+        for (tn, x), o in zip(xv, out):
+            if o.startswith("OK "):
+                values.append((tn, o.split()[1]))
+            else:
+                # the directed values are valid by construction: a baseline build that cannot read one is a defect
+                # of the value transport (harness) or of the XER decoder (C03) - visible in the distribution
+                run.count("family_xer_value_not_decodable(%s)" % m["name"])
+                run.notes.append({"xer_value_rejected": m["name"], "type": tn, "xer": x[:200], "answer": o})
+    k = m.get("rfill", 0) * (1 if tier == "quick" else 3)
+    if k:
+        lines = []
+        for tn in m.get("rfill_types") or [n for n, _ in m["defs"]]:
+            for _ in range(k):
+                lines.append("rfill %s %d %d" % (tn, rng.below(100000), rng.choice([8, 32, 64, 200])))
+        out = run_mod_resume(run, m, lines, "C13-family-rfill")
+        for l, o in zip(lines, out):
+            f = o.split()
+            if len(f) == 3 and f[0] == "OK" and f[1] != "ENCFAIL" and f[2] == "ck=0":
+                values.append((l.split()[1], f[1]))
+            else:
+                run.count("family_rfill_value_unusable")
+    seen, out = set(), []
+    for v in values:
+        if v not in seen:
+            seen.add(v)
+            out.append(v)
+    return out
+
+
+def descriptor_tie(run, variants, names, texts, classify, skel_inc, lib, model):
+    """the translator-style tie: the type descriptor tables of every build of a module (harness/dumpdescr.c) must be
+    equal to the baseline's up to the fields the options may change (lib/c13_descr.erase, bisimulation from the PDUs).
+    (i) oracle: the Python erasure/bisimulation; (ii) faithfulness: the extracted coq/Rt/Options.v `table_sim`
+    must give the same verdict on the same pair of tables."""
+    dumps = c13_descr.dump_all(variants, names, skel_inc, lib)
+    mlines, mkeys = [], []
+    tabs = {}
+    for n in names:
+        if not (variants[0].mods.get(n) and variants[0].mods[n].get("exe")):
+            continue
+        rc0, t0, e0 = dumps[(0, n)]
+        base = c13_descr.parse_dump(t0) if rc0 == 0 else None
+        if base is None:
+            run.violation("translator:dumpdescr", {"what": "dumpdescr does not build, link or run against the baseline build", "module": texts[n], "rc": rc0, "log": e0}, no_input=True)
+            continue
+        run.count("descriptor_tables_dumped")
+        tabs[(0, n)] = base
+        for vi, var in enumerate(variants):
+            if vi == 0 or (vi, n) not in dumps:
+                continue
+            rc, t, e = dumps[(vi, n)]
+            tab = c13_descr.parse_dump(t) if rc == 0 else None
+            if tab is None:
+                run.violation("translator:dumpdescr", {"what": "dumpdescr does not build, link or run against the build " + var.label(), "module": texts[n], "rc": rc, "log": e}, no_input=True)
+                continue
+            tabs[(vi, n)] = tab
+            # non-vacuity of the erasure: how much of the raw tables DOES depend on the options
+            if tab["n"] == base["n"]:
+                for da, db in zip(base["d"], tab["d"]):
+                    if da["kind"] != db["kind"]:
+                        run.count("erased:native_vs_wide_op_table")
+                    if len(da["elems"]) == len(db["elems"]):
+                        for ea, eb in zip(da["elems"], db["elems"]):
+                            if (ea["flags"] ^ eb["flags"]) & 1:
+                                run.count("erased:ATF_POINTER_differs")
+            else:
+                run.count("erased:descriptor_sharing_differs")
+            has_per = not (skips(var.opts, "uper") or skips(variants[0].opts, "uper"))
+            has_oer = not (skips(var.opts, "oer") or skips(variants[0].opts, "oer"))
+            diffs = c13_descr.bisimilar(base, tab, has_per, has_oer)
+            line = "descr %s %s" % (n, " ".join(var.opts) or "(none)")
+            run.case(line)
+            run.count("descriptor_tables_compared")
+            run.count("descriptors_compared", tab["n"])
+            mlines.append("opt_sim %d %d %s %s" % (1 if has_per else 0, 1 if has_oer else 0, c13_descr.wire_table(base), c13_descr.wire_table(tab)))
+            mkeys.append((n, vi, not diffs))
+            if diffs:
+                fid = classify(n, var, diffs)
+                if fid:
+                    run.known_finding(fid, line)
+                    continue
+                run.violation("oracle:descriptor-differs", {"what": "the type descriptors generated under %s differ from the baseline's in a field no representation option may change" % var.label(),
+                                                            "module": texts[n], "command_line": line, "differences": diffs[:12],
+                                                            "baseline": variants[0].label(), "build": var.label()})
+    if mlines and model:
+        rcm, mo, me = run_lines(model, mlines, timeout=900)
+        if rcm != 0 or len(mo) != len(mlines):
+            run.violation("correspondence:Options.table_sim", {"what": "model driver failed on descriptor tables", "rc": rcm, "stderr": me[-800:]}, no_input=True)
+        else:
+            for (n, vi, same), ml, o in zip(mkeys, mlines, mo):
+                run.count("descriptor_sim_model_vs_python")
+                if (o == "SIM") != same:
+                    run.violation("correspondence:Options.table_sim", {"what": "coq/Rt/Options.v table_sim and lib/c13_descr.bisimilar disagree on a pair of dumped tables",
+                                                                       "module": texts[n], "build": variants[vi].label(), "model": o, "python_equal": same,
+                                                                       "model_command": ml[:3000]}, no_input=True)
+    return tabs
+
+
+def slots_tie(run, variants, mods, tabs, model):
+    """coq/Rt/Options.v type_slots / member_slots (the emitter's decision which of the OER / PER slots of a type
+    descriptor and of a member entry are filled) against the dumped tables of every build, for the named types of
+    the model-algebra family modules (whose constraints the generator knows)."""
+    lines, keys = [], []
+    for m in mods:
+        if not m.get("exe"):
+            continue
+        for ri, (tn, t) in enumerate(m["defs"]):
+            if t["k"] == "ref":
+                continue
+            for vi, var in enumerate(variants):
+                tab = tabs.get((vi, m["name"]))
+                if tab is None or ri >= tab["roots"]:
+                    continue
+                d = tab["d"][ri]
+                o, p = 0 if skips(var.opts, "oer") else 1, 0 if skips(var.opts, "uper") else 1
+                fl = "%d %d %d %d %d" % (o, p, 1 if "-fno-constraints" in var.opts else 0, 1 if "-fwide-types" in var.opts else 0, 1 if "-findirect-choice" in var.opts else 0)
+                lines.append("opt_slots %s %d 0 %d 0" % (fl, 1 if t.get("con") else 0, 1 if t["k"] == "choice" else 0))
+                keys.append((m, tn, var, "type", ("T" if d["oer"] != "None" else "N") + ("T" if d["per"] != "None" else "N")))
+                if t["k"] in ("seq", "choice") and len(t["ms"]) == len(d["elems"]):
+                    for (mn, mt, _o), e in zip(t["ms"], d["elems"]):
+                        lines.append("opt_mslots %d %d %d %d" % (o, p, 1 if "-fno-constraints" in var.opts else 0, 1 if (mt["k"] != "ref" and mt.get("con")) else 0))
+                        keys.append((m, tn + "." + mn, var, "member", ("T" if e["oer"] != "None" else "N") + ("T" if e["per"] != "None" else "N")))
+    if not lines:
+        return
+    rcm, mo, me = run_lines(model, lines, timeout=600)
+    if rcm != 0 or len(mo) != len(lines):
+        run.violation("correspondence:Options.type_slots", {"what": "model driver failed", "rc": rcm, "stderr": me[-800:]}, no_input=True)
+        return
+    for (m, where, var, what, got), l, o in zip(keys, lines, mo):
+        run.case("%s %s %s @%s" % (l, m["name"], where, " ".join(var.opts)))
+        run.count("emitter_slots_%s" % what)
+        if o[:2] != got:
+            run.violation("correspondence:Options.%s_slots" % what,
+                          {"what": "the %s's OER/PER constraint slots in the generated tables are not what the model of the emitter's decision says (T = record, N = null)" % what,
+                           "module": m["text"], "where": where, "build": var.label(), "model_command": l, "model": o[:2], "generated": got, "command_line": "descr %s %s" % (m["name"], " ".join(var.opts))})
+
+
+def _t(what):
+    if os.environ.get("VERIF_C13_TIMING"):
+        log("C13 t=%6.1f %s" % (time.time() - T0, what))
+
+
 def main(tier):
     run = Run("C13", tier)
     rng = Rng(run.seed)
@@ -430,24 +620,37 @@ def main(tier):
         coqchk = {"rc": rck, "axioms": (mm.group(1).strip() if mm else "?")}
         if rck != 0 or coqchk["axioms"] != "<none>":
             run.violation("proof:coqchk", {"what": "coqchk rejects the compiled property file or reports axioms", "log_tail": ko[-1500:]}, no_input=True)
+    _t("proofs done")
     quick = tier == "quick"
     optsets = list(QUICK_SETS) if quick else all_subsets(rng)
     try:
         nm, nt, nv = (6, 5, 6) if quick else (4, 5, 10)
         mods, cases = build_corpus(run, rng, nm, nt, nv, tier, opts=BASE, tag="opt0")
+        _t("corpus built")
         wg = WGen(rng, features=WIDE_FEATURES)
         wmods = [wg.module("W%d" % i, 5) for i in range(5 if quick else 4)] + [cover_module(), witness_module(), witness2_module()]
         build_modules(wmods, tag="wopt0", opts=BASE)
+        _t("wide baseline built")
         mv = build_variants(mods, optsets, jobs=4)
         wv = build_variants(wmods, optsets, jobs=4, prefix="wopt")
+        _t("variants built")
+        # directed families: one per representation option (lib/c13_families.py)
+        fam_model = model_family_modules()
+        fam_text = text_family_modules(rng, tier)
+        fmods = fam_model + fam_text
+        fsets = (list(QUICK_SETS) + FAMILY_SETS) if quick else family_sets_thorough()
+        build_modules(fmods, tag="fopt0", opts=BASE)
+        fv = build_variants(fmods, fsets, jobs=4, prefix="fopt", select=relevant if quick else None)
     except BuildError as e:
         run.violation("build", {"what": str(e)[-2500:]}, no_input=True)
         return run.finish("proof", (nthm, ndis))
+    _t("family built")
     variants = [Variant(0, BASE, mods)] + [Variant(i + 1, o, ms) for i, (o, ms) in enumerate(mv)]
     wvariants = [Variant(0, BASE, wmods)] + [Variant(i + 1, o, ms) for i, (o, ms) in enumerate(wv)]
+    fvariants = [Variant(0, BASE, fmods)] + [Variant(i + 1, o, ms) for i, (o, ms) in enumerate(fv)]
     # a module the baseline builds must build under every option set that keeps -fcompound-names
     # (without it name clashes are legitimate: C10's business, counted only)
-    for vs in (variants, wvariants):
+    for vs in (variants, wvariants, fvariants):
         for var in vs[1:]:
             for mname, m in var.mods.items():
                 base_ok = bool(vs[0].mods[mname].get("exe"))
@@ -455,16 +658,18 @@ def main(tier):
                     run.count("built")
                 elif not base_ok:
                     run.count("not_built_in_baseline_either")
+                    run.count("not_built_in_baseline_either(%s)" % mname)
                 elif "-fcompound-names" not in var.opts and m.get("asn1c_rc") and "-fcompound-names" in m.get("asn1c_out", ""):
                     # asn1c itself refuses: `FATAL: Use "-fcompound-names" flag to asn1c to resolve name clashes` (C10's business)
                     run.count("not_built_without_compound_names(asn1c diagnoses the name clash)")
                 else:
                     run.violation("build:option-breaks-module", {"what": "a module that builds under the baseline options does not build under " + var.label(),
                                                                   "module": m["text"], "asn1c_out": m.get("asn1c_out", "")[-1500:], "build_log": m.get("build_log", "")[-1500:]})
-    for m in mods:
+    for m in mods + fmods:
         if not m.get("exe"):
             run.violation("build:module", {"what": "asn1c rejected a valid generated module or its output does not compile",
                                            "module": m["text"], "asn1c_out": m.get("asn1c_out", "")[-1500:], "build_log": m.get("build_log", "")[-1500:]})
+    _t("build checks done")
     # ------------------------------------------------------------ model layer
     bm = by_module(cases)
     for m in mods:
@@ -488,6 +693,7 @@ def main(tier):
         check_module(run, rng, tier, variants, m["name"], values, classify, "model", model_bytes=mb, dec_limit=150 if quick else 200)
         if cs:
             run.sample({"module": m["name"], "type": cs[0]["ts"], "value": cs[0]["vs"][:80], "der": cs[0]["der"][:80], "builds": [v.label() for v in variants if v.mods[m["name"]].get("exe")][:8]})
+    _t("model layer done")
     # ------------------------------------------------------------ wide layer
     for m in wmods:
         if not m.get("exe"):
@@ -521,6 +727,59 @@ def main(tier):
         check_module(run, rng, tier, wvariants, m["name"], values, wclassify, "wide", dec_limit=150 if quick else 200)
         if values:
             run.sample({"wide_module": m["text"][:300], "type": values[0][0], "der": values[0][1][:80]})
+    _t("wide layer done")
+    # ------------------------------------------------------------ directed families
+    model = model_build()
+    fcases = by_module(model_cases(model, [m for m in fam_model if m.get("exe")], rng, 3 if quick else 10, run_lines))
+    for m in fam_model:
+        if not m.get("exe"):
+            continue
+        cs = fcases.get(m["name"], [])
+        values = [(c["tn"], c["der"]) for c in cs]
+        mb = {"der": [c["der"] for c in cs], "uper": [c["uper"] for c in cs], "oer": [c["oer"] for c in cs], "uperstd": [c["uperstd"] for c in cs]}
+        for c in cs:
+            run.count("family_%s_values" % m["name"])
+
+        def fclassify(j, s, kind, detail):
+            return None
+        check_module(run, rng, tier, fvariants, m["name"], values, fclassify, "family", model_bytes=mb, dec_limit=400 if quick else 1200)
+        if cs:
+            run.sample({"family_module": m["name"], "type": cs[0]["ts"][:80], "value": cs[0]["vs"][:80], "der": cs[0]["der"][:80]})
+    _t("family model done")
+    for m in fam_text:
+        if not m.get("exe"):
+            continue
+        values = text_family_values(run, rng, tier, m)
+        run.count("family_%s_values" % m["name"], len(values))
+        meta = m.get("value_meta", {})
+
+        def tclassify(j, s, kind, detail, m=m, values=values, meta=meta):
+            g = detail if kind in ("enc-differs", "model-differs") else detail.get("groups", {})
+            if s == "uper" and needs_per_char_map(m["text"]) and split_along_no_constraints(fvariants, g):
+                return "C13-no-constraints-per-alphabet"
+            reals = meta.get(values[j], {}).get("reals", [])
+            if reals and split_along(fvariants, g, "-fwide-types"):
+                # asn_double2REAL is on the native path only: its two known defects (C16) show as native/wide differences
+                if any(real_is_subnormal(x) for x in reals):
+                    return "C13-real-native-subnormal"
+                if any(real_leading_zero_region(x) for x in reals):
+                    return "C13-real-native-leading-zero"
+            return None
+        check_module(run, rng, tier, fvariants, m["name"], values, tclassify, "family", dec_limit=400 if quick else 1200)
+    _t("family text done")
+    # ------------------------------------------------------------ descriptor tie (translator: harness/dumpdescr.c)
+    lib, _libdir = build_skeleton_lib(True)
+    _asn1c, skel_inc = build_asn1c()
+
+    def dclassify(n, var, diffs):
+        if "-fno-constraints" in var.opts and c13_descr.only_char_map_differs(diffs):
+            return "C13-no-constraints-per-alphabet"
+        return None
+    for vs, ms in ((variants, mods), (wvariants, wmods), (fvariants, fmods)):
+        tabs = descriptor_tie(run, vs, [m["name"] for m in ms if m.get("exe")], {m["name"]: m["text"] for m in ms}, dclassify, skel_inc, lib, model)
+        if vs is fvariants:
+            slots_tie(run, fvariants, fam_model, tabs, model)
+    _t("descr tie done")
     # ------------------------------------------------------------ witness layers
     wis = wvariants[0].mods.get("WIS")
     if wis and wis.get("exe"):
@@ -542,17 +801,19 @@ def main(tier):
                 return "C13-native-capacity"
             return None
         check_module(run, rng, tier, wvariants, "WIT", [(t, d) for (t, d, c) in wvals], xclassify, "witness")
-        leaf_tie(run, rng, tier, wvariants, model_build())
+        leaf_tie(run, rng, tier, wvariants, model)
+    _t("witness done")
     tb = ["Coq 8.16.1 kernel; vm_compute for refuted witnesses and Examples", "axioms under Print Assumptions: " + (", ".join(sorted(axioms)) or "none (Closed under the global context)"),
-          "extraction: ExtrOcamlBasic only; OCaml 4.13.1", "lib/modgen.py (generator, independent X.680 tagging), lib/widegen.py, lib/modbuild.py, lib/c13_util.py, harness/moddrv.c; gcc + ASan/UBSan",
+          "extraction: ExtrOcamlBasic only; OCaml 4.13.1", "lib/modgen.py (generator, independent X.680 tagging), lib/widegen.py, lib/modbuild.py, lib/c13_util.py, lib/c13_families.py (directed families, hand-made DER), lib/c13_descr.py (parser of the dumped tables, Python erasure), harness/moddrv.c, harness/dumpdescr.c (translator, reads the public asn_TYPE_descriptor_t layout), ocaml/drv_c13.ml (integer-tree parser); gcc + ASan/UBSan",
           "values reach every build as DER through ber_decode; wide-layer values are those the baseline build's asn_random_fill produces",
           "builds made with -no-gen-OER / -no-gen-PER are linked with the full skeleton archive and are not asked for the disabled syntax"]
     return run.finish("proof", (nthm, ndis), trusted_base=tb,
                       checker_cmd="make -C /verif all && coqc -Q coq A1 coq/Props/Properties_C13.v",
-                      extra_cov={"theorems": names, "coqchk": coqchk, "driver_notes": run.notes[:12], "modules": len(mods), "wide_modules": len(wmods), "option_sets": [" ".join(v.opts) for v in variants],
+                      extra_cov={"family_values_not_encodable_anywhere": FAMILY_NOTES, "theorems": names, "coqchk": coqchk, "driver_notes": run.notes[:12], "modules": len(mods), "wide_modules": len(wmods), "option_sets": [" ".join(v.opts) for v in variants],
                                  "rule": "one case = one driver command line (value x syntax encoded by every build, or one distinct output decoded by every build); distinct command lines",
                                  "traces_validated_against_impl": run.cov["evaluations"]},
-                      assumptions=["theorems cover the INTEGER/ENUMERATED native-vs-wide leaf (DER, BER decode, the conversions used by PER/OER); every other effect of the options is covered by the tie only",
+                      assumptions=["theorems cover the INTEGER/ENUMERATED native-vs-wide leaf (DER, BER decode, the conversions used by PER/OER), pointer vs inline member access for OER and DER over the first-milestone algebra (Rt/Layout.v), the descriptor erasure with its comparison and the emitter's slot decision (Rt/Options.v); REAL native/wide, UPER/XER on the structure, the wide algebra and the naming/include options are covered by the tie only",
+                                   "family modules (quick tier) are built under the option sets that contain an option the family is about, plus -findirect-choice alone and all structure-changing options together",
                                    "quick tier: baseline + 5 option subsets; thorough: all subsets of the 7 options",
                                    "modules that do not compile without -fcompound-names are skipped (C10)"])
 
